@@ -1488,4 +1488,637 @@ func (r *response) copyToWriters(p *Packet) {
 // Write will write the packet to the underlying net.Conn.  If you are expecting another packet
 `}}})
 
+	addMutant(Mutant{Name: "benign-lookup-helper-returning-a-peer-struct-and-ok", Props: []string{"C13", "C14", "C17", "C20"}, Rule: "", KeySub: "", Benign: true,
+		Why: "the secret provider lookup of the connection goroutine moved into Server.lookup returning peer{secret, handler} and ok; shutdown and accept-error handling moved into methods",
+		Edits: []Edit{
+			{File: "server.go", Old: `
+// Serve is a blocking method that serves clients
+func (s *Server) Serve(ctx context.Context, listener DeadlineListener) error {
+	defer func() {
+		s.Infof(ctx, "Stopping server listener for %v...", listener.Addr().String())
+		err := listener.Close()
+		if err != nil {
+			s.Errorf(ctx, "%s", err)
+		}
+		s.Infof(ctx, "waiting for [%v] connections to close prior to shutdown", atomic.LoadInt64(&s.active))
+		s.Wait()
+	}()
+
+	for {
+		select {
+`, New: `
+// Serve is a blocking method that serves clients
+func (s *Server) Serve(ctx context.Context, listener DeadlineListener) error {
+	defer s.shutdown(ctx, listener)
+
+	for {
+		select {
+`},
+			{File: "server.go", Old: `			}
+			conn, err := listener.Accept()
+			if err != nil {
+				var opE *net.OpError
+				if errors.As(err, &opE) {
+					if !opE.Temporary() {
+						serveAcceptedError.Inc()
+						return nil
+					}
+					if opE.Temporary() {
+						// triggered by SetDeadline
+						continue
+					}
+					// something else? fall through
+				}
+				s.Errorf(ctx, "server error in serving request: %s", err)
+				serveAcceptedError.Inc()
+				continue
+			}
+			s.Add(1)
+`, New: `			}
+			conn, err := listener.Accept()
+			if err != nil {
+				if s.acceptFailed(ctx, err) {
+					return nil
+				}
+				continue
+			}
+			s.Add(1)
+`},
+			{File: "server.go", Old: `	}
+}
+
+func (s *Server) serve(ctx context.Context, conn net.Conn) {
+	defer s.Done()
+	timer := prometheus.NewTimer(prometheus.ObserverFunc(func(v float64) {
+`, New: `	}
+}
+
+// shutdown closes the listener and waits for the connection goroutines started by Serve
+func (s *Server) shutdown(ctx context.Context, listener DeadlineListener) {
+	s.Infof(ctx, "Stopping server listener for %v...", listener.Addr().String())
+	if err := listener.Close(); err != nil {
+		s.Errorf(ctx, "%s", err)
+	}
+	s.Infof(ctx, "waiting for [%v] connections to close prior to shutdown", atomic.LoadInt64(&s.active))
+	s.Wait()
+}
+
+// acceptFailed accounts for an error returned by Accept. It reports true when the
+// listener is gone for good and Serve must stop, false when Serve should accept again.
+func (s *Server) acceptFailed(ctx context.Context, acceptErr error) (stop bool) {
+	var opE *net.OpError
+	if errors.As(acceptErr, &opE) {
+		switch {
+		case !opE.Temporary():
+			serveAcceptedError.Inc()
+			return true
+		case opE.Temporary():
+			// triggered by SetDeadline
+			return false
+		}
+		// something else? fall through
+	}
+	s.Errorf(ctx, "server error in serving request: %s", acceptErr)
+	serveAcceptedError.Inc()
+	return false
+}
+
+// peer is what the secret provider knows about the remote end of a connection
+type peer struct {
+	secret  []byte
+	handler Handler
+}
+
+// lookup asks the secret provider about the remote end of conn. ok is false, and the
+// refusal is logged, when the provider fails or does not know the remote.
+func (s *Server) lookup(ctx context.Context, conn net.Conn) (p peer, ok bool) {
+	secret, handler, err := s.Get(ctx, conn.RemoteAddr())
+	if err != nil || secret == nil || handler == nil {
+		s.Errorf(ctx, "ignoring request: %v", err)
+		return peer{}, false
+	}
+	return peer{secret: secret, handler: handler}, true
+}
+
+func (s *Server) serve(ctx context.Context, conn net.Conn) {
+	defer s.Done()
+	timer := prometheus.NewTimer(prometheus.ObserverFunc(func(v float64) {
+`},
+			{File: "server.go", Old: `	defer timer.ObserveDuration()
+	// start a timer to measure loader duration
+	loaderStart := time.Now()
+	secret, handler, err := s.Get(ctx, conn.RemoteAddr())
+	if err != nil || secret == nil || handler == nil {
+		s.Errorf(ctx, "ignoring request: %v", err)
+		conn.Close()
+		timer.ObserveDuration()
+		return
+	}
+	ctx = context.WithValue(ctx, ContextLoaderDuration, time.Since(loaderStart).Milliseconds())
+	serveAccepted.Inc()
+	s.handle(ctx, newCrypter(secret, conn, s.proxy), handler)
+	serveAccepted.Dec()
+}
+
+`, New: `	defer timer.ObserveDuration()
+	// start a timer to measure loader duration
+	loaderStart := time.Now()
+	remote, ok := s.lookup(ctx, conn)
+	if !ok {
+		conn.Close()
+		timer.ObserveDuration()
+		return
+	}
+	ctx = context.WithValue(ctx, ContextLoaderDuration, time.Since(loaderStart).Milliseconds())
+	serveAccepted.Inc()
+	s.handle(ctx, newCrypter(remote.secret, conn, s.proxy), remote.handler)
+	serveAccepted.Dec()
+}
+
+`}}})
+
+	addMutant(Mutant{Name: "c13-lookup-helper-reports-ok-for-an-incomplete-lookup", Props: []string{"C13"}, Rule: "R-ADMIT", KeySub: "refusal",
+		Why: "the same helper, but its failure return hands back ok = (err == nil): a lookup that returned no secret or no handler without an error is served",
+		Edits: []Edit{
+			{File: "server.go", Old: `
+// Serve is a blocking method that serves clients
+func (s *Server) Serve(ctx context.Context, listener DeadlineListener) error {
+	defer func() {
+		s.Infof(ctx, "Stopping server listener for %v...", listener.Addr().String())
+		err := listener.Close()
+		if err != nil {
+			s.Errorf(ctx, "%s", err)
+		}
+		s.Infof(ctx, "waiting for [%v] connections to close prior to shutdown", atomic.LoadInt64(&s.active))
+		s.Wait()
+	}()
+
+	for {
+		select {
+`, New: `
+// Serve is a blocking method that serves clients
+func (s *Server) Serve(ctx context.Context, listener DeadlineListener) error {
+	defer s.shutdown(ctx, listener)
+
+	for {
+		select {
+`},
+			{File: "server.go", Old: `			}
+			conn, err := listener.Accept()
+			if err != nil {
+				var opE *net.OpError
+				if errors.As(err, &opE) {
+					if !opE.Temporary() {
+						serveAcceptedError.Inc()
+						return nil
+					}
+					if opE.Temporary() {
+						// triggered by SetDeadline
+						continue
+					}
+					// something else? fall through
+				}
+				s.Errorf(ctx, "server error in serving request: %s", err)
+				serveAcceptedError.Inc()
+				continue
+			}
+			s.Add(1)
+`, New: `			}
+			conn, err := listener.Accept()
+			if err != nil {
+				if s.acceptFailed(ctx, err) {
+					return nil
+				}
+				continue
+			}
+			s.Add(1)
+`},
+			{File: "server.go", Old: `	}
+}
+
+func (s *Server) serve(ctx context.Context, conn net.Conn) {
+	defer s.Done()
+	timer := prometheus.NewTimer(prometheus.ObserverFunc(func(v float64) {
+`, New: `	}
+}
+
+// shutdown closes the listener and waits for the connection goroutines started by Serve
+func (s *Server) shutdown(ctx context.Context, listener DeadlineListener) {
+	s.Infof(ctx, "Stopping server listener for %v...", listener.Addr().String())
+	if err := listener.Close(); err != nil {
+		s.Errorf(ctx, "%s", err)
+	}
+	s.Infof(ctx, "waiting for [%v] connections to close prior to shutdown", atomic.LoadInt64(&s.active))
+	s.Wait()
+}
+
+// acceptFailed accounts for an error returned by Accept. It reports true when the
+// listener is gone for good and Serve must stop, false when Serve should accept again.
+func (s *Server) acceptFailed(ctx context.Context, acceptErr error) (stop bool) {
+	var opE *net.OpError
+	if errors.As(acceptErr, &opE) {
+		switch {
+		case !opE.Temporary():
+			serveAcceptedError.Inc()
+			return true
+		case opE.Temporary():
+			// triggered by SetDeadline
+			return false
+		}
+		// something else? fall through
+	}
+	s.Errorf(ctx, "server error in serving request: %s", acceptErr)
+	serveAcceptedError.Inc()
+	return false
+}
+
+// peer is what the secret provider knows about the remote end of a connection
+type peer struct {
+	secret  []byte
+	handler Handler
+}
+
+// lookup asks the secret provider about the remote end of conn. ok is false, and the
+// refusal is logged, when the provider fails or does not know the remote.
+func (s *Server) lookup(ctx context.Context, conn net.Conn) (p peer, ok bool) {
+	secret, handler, err := s.Get(ctx, conn.RemoteAddr())
+	if err != nil || secret == nil || handler == nil {
+		s.Errorf(ctx, "ignoring request: %v", err)
+		return peer{secret: secret, handler: handler}, err == nil
+	}
+	return peer{secret: secret, handler: handler}, true
+}
+
+func (s *Server) serve(ctx context.Context, conn net.Conn) {
+	defer s.Done()
+	timer := prometheus.NewTimer(prometheus.ObserverFunc(func(v float64) {
+`},
+			{File: "server.go", Old: `	defer timer.ObserveDuration()
+	// start a timer to measure loader duration
+	loaderStart := time.Now()
+	secret, handler, err := s.Get(ctx, conn.RemoteAddr())
+	if err != nil || secret == nil || handler == nil {
+		s.Errorf(ctx, "ignoring request: %v", err)
+		conn.Close()
+		timer.ObserveDuration()
+		return
+	}
+	ctx = context.WithValue(ctx, ContextLoaderDuration, time.Since(loaderStart).Milliseconds())
+	serveAccepted.Inc()
+	s.handle(ctx, newCrypter(secret, conn, s.proxy), handler)
+	serveAccepted.Dec()
+}
+
+`, New: `	defer timer.ObserveDuration()
+	// start a timer to measure loader duration
+	loaderStart := time.Now()
+	remote, ok := s.lookup(ctx, conn)
+	if !ok {
+		conn.Close()
+		timer.ObserveDuration()
+		return
+	}
+	ctx = context.WithValue(ctx, ContextLoaderDuration, time.Since(loaderStart).Milliseconds())
+	serveAccepted.Inc()
+	s.handle(ctx, newCrypter(remote.secret, conn, s.proxy), remote.handler)
+	serveAccepted.Dec()
+}
+
+`}}})
+
+	addMutant(Mutant{Name: "c12-reserved-flag-bits-cleared-by-the-decoder", Props: []string{"C12", "C02"}, Rule: "R-DECODEDONCE", KeySub: "AcctRequest",
+		Why: "the accounting request decoder clears the unassigned bits of the flags octet: 0x03, 0x12, 0x84 become valid records whose flags are not what the client sent",
+		Edits: []Edit{
+			{File: "accounting.go", Old: `// AcctRequestLen minumum length of this packet type
+const AcctRequestLen = 0x9
+
+// AcctRequestOption is used to inject options when creating new AcctRequest types
+type AcctRequestOption func(*AcctRequest)
+
+`, New: `// AcctRequestLen minumum length of this packet type
+const AcctRequestLen = 0x9
+
+// acctFlagReserved are the bits of the flags octet that rfc8907 leaves unassigned.
+// 0x01 was TAC_PLUS_ACCT_FLAG_MORE in the draft protocol and is still set by some
+// older network operating systems; the remaining bits have never carried a meaning.
+const acctFlagReserved AcctRequestFlag = 0xF1
+
+// AcctRequestOption is used to inject options when creating new AcctRequest types
+type AcctRequestOption func(*AcctRequest)
+
+`},
+			{File: "accounting.go", Old: `		return fmt.Errorf("acctRequest size [%v] is too small for the minimum size [%v]", len(data), AcctRequestLen)
+	}
+	a.Flags = AcctRequestFlag(data[0])
+	a.Method = AuthenMethod(data[1])
+	a.PrivLvl = PrivLvl(data[2])
+	a.Type = AuthenType(data[3])
+`, New: `		return fmt.Errorf("acctRequest size [%v] is too small for the minimum size [%v]", len(data), AcctRequestLen)
+	}
+	a.Flags = AcctRequestFlag(data[0])
+	// reserved bits are ignored on receipt so that the record kind is always one
+	// of start, stop, watchdog or watchdog with update
+	a.Flags.Clear(acctFlagReserved)
+	a.Method = AuthenMethod(data[1])
+	a.PrivLvl = PrivLvl(data[2])
+	a.Type = AuthenType(data[3])
+`}}})
+
+	addMutant(Mutant{Name: "c14-reply-re-enters-reply-when-the-sequence-space-is-used-up", Props: []string{"C14"}, Rule: "R-RECURSION", KeySub: "cycle",
+		Why: "response.Reply substitutes an error reply and calls itself when the reply would need a sequence number above 255; for authorization and accounting the substitute fails the same test: stack overflow, fatal for the whole server",
+		Edits: []Edit{
+			{File: "handlers.go", Old: `	default:
+		seqNo++
+	}
+	header := NewHeader(
+		SetHeaderVersion(r.header.Version),
+		SetHeaderType(r.header.Type),
+`, New: `	default:
+		seqNo++
+	}
+	if seqNo > HeaderMaxSequence {
+		// the sequence number must never wrap, see rfc8907 section 4.1. the session ends
+		// here and the client is told to start over with a sequence number of 1
+		r.next = nil
+		return r.Reply(r.sequenceExhausted())
+	}
+	header := NewHeader(
+		SetHeaderVersion(r.header.Version),
+		SetHeaderType(r.header.Type),
+`},
+			{File: "handlers.go", Old: `	return r.Write(p)
+}
+
+// Write will write the packet to the underlying net.Conn.  If you are expecting another packet
+// to return from the client after writing a response, call Next(handler) to provide a next Handler.
+func (r *response) Write(p *Packet) (int, error) {
+`, New: `	return r.Write(p)
+}
+
+// sequenceExhausted builds the terminal reply for a session that ran out of sequence numbers
+func (r *response) sequenceExhausted() EncoderDecoder {
+	const msg = "sequence number exhausted, restart the session"
+	switch r.header.Type {
+	case Authorize:
+		return NewAuthorReply(
+			SetAuthorReplyStatus(AuthorStatusError),
+			SetAuthorReplyServerMsg(msg),
+		)
+	case Accounting:
+		return NewAcctReply(
+			SetAcctReplyStatus(AcctReplyStatusError),
+			SetAcctReplyServerMsg(msg),
+		)
+	}
+	return NewAuthenReply(
+		SetAuthenReplyStatus(AuthenStatusRestart),
+		SetAuthenReplyServerMsg(msg),
+	)
+}
+
+// Write will write the packet to the underlying net.Conn.  If you are expecting another packet
+// to return from the client after writing a response, call Next(handler) to provide a next Handler.
+func (r *response) Write(p *Packet) (int, error) {
+`}}})
+
+	addMutant(Mutant{Name: "c18-request-handed-to-the-packet-logger-when-the-span-host-is-down", Props: []string{"C18"}, Rule: "R-REPLYWRITER", KeySub: "fed-outside-the-reply-path",
+		Why: "the span handler writes the request to the packet logger when the span host cannot be dialled; that logger decodes and records every field unobscured",
+		Edits: []Edit{
+			{File: "cmds/server/handlers/span.go", Old: `		spanDurations.Observe(ms)
+	}))
+	start := time.Now()
+	conn, err := s.dialHost()
+	callNextHandler := func() {
+		nextHandler := NewStart(s.loggerProvider).New(request.Context, s.configProvider.(config.Provider), nil)
+		nextHandler.Handle(response, request)
+	}
+	if err != nil {
+		spanHandleError.Inc()
+		s.Errorf(request.Context, "Unable to span connection due to error %v", err)
+		callNextHandler()
+		return
+	}
+`, New: `		spanDurations.Observe(ms)
+	}))
+	start := time.Now()
+	callNextHandler := func() {
+		nextHandler := NewStart(s.loggerProvider).New(request.Context, s.configProvider.(config.Provider), nil)
+		nextHandler.Handle(response, request)
+	}
+	// encode the request before dialling, a packet we cannot replicate should not cost a connection
+	req := tq.Packet{
+		Header: &request.Header,
+		Body:   request.Body[:],
+	}
+	reqBytes, err := req.MarshalBinary()
+	if err != nil {
+		s.Infof(request.Context, "unable to write request to connection due to error %v. Skipping packet...", err)
+		callNextHandler()
+		return
+	}
+	conn, err := s.dialHost()
+	if err != nil {
+		spanHandleError.Inc()
+		s.Errorf(request.Context, "Unable to span connection due to error %v", err)
+		// the span host is away, keep the exchange under inspection complete in the packet log;
+		// the replies are written there by the aaa handlers already
+		if _, err := newPacketLogger(s.loggerProvider).Write(request.Context, reqBytes); err != nil {
+			s.Errorf(request.Context, "unable to write request to the packet log due to error %v", err)
+		}
+		callNextHandler()
+		return
+	}
+`},
+			{File: "cmds/server/handlers/span.go", Old: `		packetType: s.packetType,
+	}
+	// Write the request to the connection
+	req := tq.Packet{
+		Header: &request.Header,
+		Body:   request.Body[:],
+	}
+	reqBytes, err := req.MarshalBinary()
+	if err != nil {
+		s.Infof(request.Context, "unable to write request to connection due to error %v. Skipping packet...", err)
+		callNextHandler()
+		return
+	}
+	w.Write(request.Context, reqBytes)
+	// Write responses
+	go func() {
+`, New: `		packetType: s.packetType,
+	}
+	// Write the request to the connection
+	w.Write(request.Context, reqBytes)
+	// Write responses
+	go func() {
+`}}})
+
+	addMutant(Mutant{Name: "c13-scope-entries-matched-by-prefix", Props: []string{"C13"}, Rule: "R-ADMIT", KeySub: "HasScope",
+		Why: "User.HasScope gains wildcard entries but prefix-matches every entry: a user of scope dc1 is admitted into scope dc10",
+		Edits: []Edit{
+			{File: "cmds/server/config/types.go", Old: `	Accounter     *Accounter     ` + "`" + `yaml:"accounter,omitempty" json:"accounter,omitempty"` + "`" + `
+}
+
+// HasScope returns bool if scope is found to be bound to this user
+func (u User) HasScope(scope string) bool {
+	for _, s := range u.Scopes {
+		if scope == s {
+			return true
+		}
+	}
+	return false
+}
+
+// LocalizeToScope will set the Scopes field to the supplied scope name
+// no validation is done and the string is accepted as is.
+func (u *User) LocalizeToScope(scope string) {
+`, New: `	Accounter     *Accounter     ` + "`" + `yaml:"accounter,omitempty" json:"accounter,omitempty"` + "`" + `
+}
+
+// HasScope returns bool if scope is found to be bound to this user.  An entry in Scopes
+// may end in "*" to bind the user to every scope whose name starts with the text before
+// it, e.g. "edge-*" binds edge-ams, edge-fra and so on without listing each of them.
+func (u User) HasScope(scope string) bool {
+	for _, s := range u.Scopes {
+		if scopeMatch(strings.TrimSpace(s), scope) {
+			return true
+		}
+	}
+	return false
+}
+
+// scopeMatch reports whether the scope name is selected by a Scopes entry of a user
+func scopeMatch(entry, scope string) bool {
+	if entry == "" {
+		return false
+	}
+	stem := strings.TrimSuffix(entry, "*")
+	return strings.HasPrefix(scope, stem)
+}
+
+// LocalizeToScope will set the Scopes field to the supplied scope name
+// no validation is done and the string is accepted as is.
+func (u *User) LocalizeToScope(scope string) {
+`}}})
+
+	addMutant(Mutant{Name: "c15-snapshot-returns-the-live-map-from-under-the-lock", Props: []string{"C15"}, Rule: "R-LOCKLEAK", KeySub: "returns-the-protected-map",
+		Why: "a table of open connections whose snapshot() locks and returns the map itself; shutdown ranges over it unlocked while connection goroutines delete from it",
+		Edits: []Edit{
+			{File: "server.go", Old: `	"errors"
+	"io"
+	"net"
+	"sync/atomic"
+	"time"
+
+`, New: `	"errors"
+	"io"
+	"net"
+	"sync"
+	"sync/atomic"
+	"time"
+
+`},
+			{File: "server.go", Old: `
+	// enables ha-proxy ascii proxy header support
+	proxy bool
+}
+
+// DeadlineListener is a net.Listener that supports Deadlines
+`, New: `
+	// enables ha-proxy ascii proxy header support
+	proxy bool
+
+	// open holds the accepted connections that are still being served, so that a
+	// shutdown does not have to sit out the read deadline of every idle client
+	open connTable
+}
+
+// connTable is the set of connections a server is currently serving
+type connTable struct {
+	sync.Mutex
+	conns map[net.Conn]struct{}
+}
+
+// add registers an accepted connection
+func (t *connTable) add(c net.Conn) {
+	t.Lock()
+	defer t.Unlock()
+	if t.conns == nil {
+		t.conns = make(map[net.Conn]struct{})
+	}
+	t.conns[c] = struct{}{}
+}
+
+// remove forgets a connection once it has been served
+func (t *connTable) remove(c net.Conn) {
+	t.Lock()
+	defer t.Unlock()
+	delete(t.conns, c)
+}
+
+// snapshot returns the connections that are open at the time of the call
+func (t *connTable) snapshot() map[net.Conn]struct{} {
+	t.Lock()
+	defer t.Unlock()
+	return t.conns
+}
+
+// closeAll closes every connection that is still open and reports how many there were.
+// The table is not kept locked meanwhile: closing a connection makes its serve goroutine
+// return, and that goroutine needs the lock to take itself out of the table.
+func (t *connTable) closeAll() int {
+	open := t.snapshot()
+	for c := range open {
+		c.Close()
+	}
+	return len(open)
+}
+
+// DeadlineListener is a net.Listener that supports Deadlines
+`},
+			{File: "server.go", Old: `		if err != nil {
+			s.Errorf(ctx, "%s", err)
+		}
+		s.Infof(ctx, "waiting for [%v] connections to close prior to shutdown", atomic.LoadInt64(&s.active))
+		s.Wait()
+	}()
+`, New: `		if err != nil {
+			s.Errorf(ctx, "%s", err)
+		}
+		// nothing is accepted any more; hang up on the clients that are still connected
+		// instead of waiting for them to go away or to run into their read deadline
+		s.Debugf(ctx, "closed [%v] client connections", s.open.closeAll())
+		s.Infof(ctx, "waiting for [%v] connections to close prior to shutdown", atomic.LoadInt64(&s.active))
+		s.Wait()
+	}()
+`},
+			{File: "server.go", Old: `				continue
+			}
+			s.Add(1)
+			go s.serve(ctx, conn)
+		}
+	}
+`, New: `				continue
+			}
+			s.Add(1)
+			s.open.add(conn)
+			go s.serve(ctx, conn)
+		}
+	}
+`},
+			{File: "server.go", Old: `
+func (s *Server) serve(ctx context.Context, conn net.Conn) {
+	defer s.Done()
+	timer := prometheus.NewTimer(prometheus.ObserverFunc(func(v float64) {
+		ms := v * 1000 // make milliseconds
+		connectionDuration.Observe(ms)
+`, New: `
+func (s *Server) serve(ctx context.Context, conn net.Conn) {
+	defer s.Done()
+	defer s.open.remove(conn)
+	timer := prometheus.NewTimer(prometheus.ObserverFunc(func(v float64) {
+		ms := v * 1000 // make milliseconds
+		connectionDuration.Observe(ms)
+`}}})
+
 }
